@@ -116,7 +116,7 @@ def _model_vals(m, xs):
 def _concrete_check(name, reduce, mode, vals):
     """replay on the real code with Python floats: compare with the definition computed in exact rational arithmetic"""
     fac, kind, sq = OPS[name]
-    got = _plain(vals, [fac(reduce)]) if mode == 'plain' else _mux(vals, [fac(reduce)])
+    got = _plain(vals, [fac(reduce)], retry=len(vals) >= 1) if mode == 'plain' else _mux(vals, [fac(reduce)], retry=len(vals) >= 1)     # the same retry history as the symbolic run
     exp = []
     km = 2 if name.endswith('_k') else 1
     fr = [Fraction(v) * km for v in vals]
